@@ -12,7 +12,7 @@
     include/rtosc/port-sugar.h),
   * a default: constant (`rDefault`) or selected by the value of another port
     (`rDefaultDepends` + `rPreset(s)` + `rDefault` as fall-back),
-  * the toggles that enable the sub-trees it lives in (`rEnabledBy` on `rRecurp` —
+  * the ports that enable the sub-trees it lives in (toggles, or int/option ports: enabled = non-zero) (`rEnabledBy` on `rRecurp` —
     pointer sub-tree, a message into a disabled one matches nothing — or on `rRecur` —
     embedded sub-tree, skipped by the walk when disabled; the toggle is a port of the parent
     table, or a port of the sub-tree itself: `rRecur(sub, rEnabledBy(sub/t))`, or
@@ -162,8 +162,16 @@ def evalDflt (p : Param) (s : State) : Val :=
       | some k => (lookupPreset tbl k).getD fb
       | none => fb
 
+/-- `port_is_enabled` on the reply of the enabling port (src/cpp/ports.cpp):
+    `rval.type == 'T' || (rval.type == 'i' && rval.val.i != 0)` — an rToggle that is on, or an int-replying
+    port (rParamI, rOption, rParam) holding a non-zero value. -/
+def enabledVal : Val → Bool
+  | .bool b => b
+  | .int i => i != 0
+  | _ => false
+
 def guardsOn (p : Param) (s : State) : Bool :=
-  p.guards.all fun g => s g.1 == Val.bool true
+  p.guards.all fun g => enabledVal (s g.1)
 
 /-- The value a parameter has when nothing set it since its dependencies last changed. -/
 def expected (p : Param) (s : State) : Val :=
@@ -228,10 +236,26 @@ def setParam (i : Nat) (v : Val) (s : State) : State :=
 
 /-- some pointer sub-tree on the way is not allocated -/
 def ptrOff (p : Param) (s : State) : Bool :=
-  p.guards.any fun g => g.2 && !(s g.1 == Val.bool true)
+  p.guards.any fun g => g.2 && !enabledVal (s g.1)
+
+/-- the argument is of the LAST alternative of the port's argument specification (`::i`, `::c`, `::f`, `::T:F`,
+    `::i:c:S`, `::s`).  `rtosc_match_args` (src/dispatch.c) demands of every alternative but the last that the
+    message's type string ends where the alternative ends; the last one only has to be a prefix of it: a message
+    with more arguments is accepted when its first argument is of that alternative, and the callback reads
+    argument 0 only. -/
+def lastAlt : Kind → Val → Bool
+  | .int _ _, .int _ => true
+  | .chr, .chr _ => true
+  | .ichar _ _, .int _ => true
+  | .flt _ _, .flt _ => true
+  | .tog, .bool false => true
+  | .opt _, .sym _ => true
+  | .str _, .str _ => true
+  | _, _ => false
 
 /-- `Ports::dispatch` of one message `addr args` on the application: `none` = no port
-    matched (`d.matches == 0`). -/
+    matched (`d.matches == 0`).  Arguments behind the first are ignored when the port accepts the message
+    (`lastAlt`). -/
 def dispatch (addr : Path) (args : List Val) (s : State) : Option State :=
   match app.findAddr addr with
   | none => none
@@ -240,11 +264,11 @@ def dispatch (addr : Path) (args : List Val) (s : State) : Option State :=
     if ptrOff p s then none
     else match args with
       | [] => some s                                  -- query: matched, replies
-      | [v] =>
-        match store p.kind v with
+      | v :: rest =>
+        if !rest.isEmpty && !lastAlt p.kind v then none
+        else match store p.kind v with
         | none => none
         | some v' => if guardsOn p s then some (app.setParam i v' s) else some s
-      | _ => none
 
 /-- a sequence of parameter messages (history); unmatched messages have no effect -/
 def run (msgs : List (Path × List Val)) (s : State) : State :=
